@@ -1,2 +1,9 @@
+"""C03 for the two 1D Riemann solvers: every energy / sound speed is computed by the EOS closures
+sie() / sound_speed() from the pressure and density of ONE side with THAT side's gamma."""
+from .c09 import side_consistency
+
+
 def check(model, res):
-    res.notes.append('Riemann state-list rule not yet built')
+    side_consistency(model, res, prop='C03', rule='C03.side-gamma', callees={'sie', 'sound_speed'}, min_calls=12,
+                     why="the returned energy / sound speed is computed with the other gas's gamma, so pressure, density and "
+                         "specific internal energy do not satisfy that side's equation of state when gl != gr")
